@@ -228,7 +228,7 @@ PROPS["C10"] = dict(
                "reproduce. Signals are not sent at the trigger line itself (the server installs its handlers just after printing it).",
     rule="non-trivial = the stop fired and the transfer ended stopped (not success); distinct by SHA-1 of the case JSON (scenario, event, kind, initiator)",
     tests=[dict(name="TestVF_C10", rapid=False, env=dict(VERIF_CASE_LIMIT=300),
-                quick=dict(shards=32, timeout=1200, env=dict(VERIF_C10_STRIDE=5)),
+                quick=dict(shards=32, timeout=1200, env=dict(VERIF_C10_STRIDE=6)),
                 thorough=dict(shards=32, timeout=14000, env=dict(VERIF_C10_STRIDE=1)))],
 )
 
@@ -343,6 +343,11 @@ PROPS["C06"]["tests"].append(dict(name="TestVF_C06Filter", env=dict(VERIF_CASE_L
                                   quick=dict(checks=160, shards=32, timeout=600), thorough=dict(checks=3000, shards=32, timeout=6000)))
 
 PROPS["C05"]["tests"].append(dict(name="TestVF_C05Exit", rapid=False, quick=dict(shards=8, timeout=300), thorough=dict(shards=8, timeout=300)))
+
+PROPS["C10"]["yield"] = ["transfer.go", "pipeline.go", "buffer.go", "filter.go", "append.go"]
+PROPS["C10"]["tests"].append(dict(name="TestVF_C10Perturbed", rapid=False, env=dict(VERIF_CASE_LIMIT=300),
+                                  quick=dict(shards=32, timeout=1200, env=dict(VERIF_C10P_STRIDE=40)),
+                                  thorough=dict(shards=32, timeout=14000, env=dict(VERIF_C10P_STRIDE=1))))
 
 # native fuzz targets (thorough tier only; Go's fuzzer cannot be pinned to a seed, a saved crasher is the reproducible unit)
 for _pid in ["C03", "C04", "C06", "C15", "C16", "C20"]:
